@@ -3,8 +3,26 @@
 import glob, json, os, re
 ROOT = os.path.dirname(os.path.dirname(os.path.abspath(__file__)))
 rows = []
+DESC = json.load(open(os.path.join(ROOT, "seeded", "descriptions.json")))
+
+
+def short(v):
+    """one cell: how a run of the check ended"""
+    out = [l for l in v.get("output", []) if not l.startswith("KNOWN-FINDING")]
+    first = out[0] if out else ""
+    if v["exit"] == 0:
+        return "missed"
+    if "no-failing-input-found" in first:
+        return "caught, no concrete input"
+    return "caught, concrete input"
+
+
 for m in sorted(glob.glob(os.path.join(ROOT, "seeded", "C*", "meta.json"))):
     d = json.load(open(m))
+    if d["id"] in DESC:            # the descriptions are kept in one file; the meta files carry them for convenience
+        d["what"], d["needs"] = DESC[d["id"]]["what"], DESC[d["id"]]["needs"]
+        json.dump(d, open(m, "w"), indent=1)
+    firsts = [k for k in d if k.startswith("checks_at_")]
     for p, v in sorted(d.get("checks", {}).items()):
         out = [l for l in v.get("output", []) if not l.startswith("KNOWN-FINDING")]
         first = out[0] if out else ""
@@ -18,6 +36,9 @@ for m in sorted(glob.glob(os.path.join(ROOT, "seeded", "C*", "meta.json"))):
             mm = re.search(r"replay=\S*/(C\d\d)-\d+-([a-z]+)-", first)
             case = next((l.strip()[6:] for l in out[1:] if l.strip().startswith("case:")), "")
             verdict = "caught with a concrete input by the `%s` stream: `%s`" % (mm.group(2) if mm else "?", case[:70].replace("|", "/").replace("`", "'"))
+        for k in firsts:
+            if p in d[k]:
+                verdict = "first run (%s): %s; now: " % (k[len("checks_at_"):], short(d[k][p])) + verdict
         rows.append("| %s | %s | %s | %s | %s |" % (d["id"], p, d.get("what", "").replace("|", "/"), d.get("needs", "").replace("|", "/"), verdict))
 table = ["| id | check | change | needs | verdict of the committed quick check |", "|----|-------|--------|-------|--------------------------------------|"] + rows
 n = len(rows); caught = sum(1 for r in rows if "**missed**" not in r); conc = sum(1 for r in rows if "concrete input by" in r)
